@@ -12,7 +12,35 @@ from pathlib import Path
 from . import common as C
 from . import pipeline as P
 from . import sim
-from .common import cbool, clist, ctuple, cnat
+from .common import cbool, clist, ctuple, cnat, priv, set_priv
+import asyncio
+
+
+def apt_config(apt):
+    """the Config of an APTMirror (private attribute, found by name or by type)"""
+    from apt_mirror.config import Config
+    return priv(apt, ["_config"], lambda n, v: isinstance(v, Config))
+
+
+def mirror_config(m):
+    from apt_mirror.config import Config
+    return priv(m, ["_config"], lambda n, v: isinstance(v, Config))
+
+
+def mirror_downloader(m):
+    from apt_mirror.download.downloader import Downloader
+    return priv(m, ["_downloader"], lambda n, v: isinstance(v, Downloader))
+
+
+def bare_apt(var_path: Path):
+    """a real APTMirror on a real Config whose var_path is [var_path] (all that lock() uses)"""
+    from apt_mirror.apt_mirror import APTMirror
+    from apt_mirror.config import Config
+    d = Path(var_path).parent / ("bare_cfg_" + Path(var_path).name)
+    d.mkdir(exist_ok=True)
+    f = d / "mirror.list"
+    f.write_text(f"set base_path {Path(var_path).parent}\nset var_path {var_path}\n")
+    return APTMirror(Config(f, str(Path(var_path).parent)))
 
 HEADER = "From AM.Model Require Import Base Download Pipeline."
 COQ_DEFS = """
@@ -110,6 +138,73 @@ def realise_plan(plan, files_by_url):
     return out
 
 
+
+class ObservedSemaphore:
+    """A semaphore of the tool, observed without being replaced: every call goes to the tool's own object
+    (whatever its class), the proxy only logs (name, "acq"/"rel", task) around it and notes when the inner counter
+    exceeds the limit ("over": released more often than acquired)."""
+
+    def __init__(self, inner, name, log, limit=None):
+        self._inner, self._name, self._limit = inner, name, limit
+        self._logs = log if isinstance(log, tuple) else (log,)
+
+    def _put(self, ev):
+        for lg in self._logs:
+            lg.append(ev)
+
+    def _acq(self):
+        self._put((self._name, "acq", id(asyncio.current_task())))
+
+    def _rel(self):
+        self._put((self._name, "rel", id(asyncio.current_task())))
+
+    def _over(self):
+        v = getattr(self._inner, "_value", None)
+        if self._limit is not None and isinstance(v, int) and v > self._limit:
+            self._put((self._name, "over", v))
+
+    async def acquire(self, *a, **k):
+        r = await self._inner.acquire(*a, **k)
+        self._acq()
+        return r
+
+    def release(self, *a, **k):
+        self._rel()
+        r = self._inner.release(*a, **k)
+        self._over()
+        return r
+
+    def locked(self):
+        return self._inner.locked()
+
+    async def __aenter__(self):
+        r = await type(self._inner).__aenter__(self._inner)
+        self._acq()
+        return r
+
+    async def __aexit__(self, *exc):
+        self._rel()
+        r = await type(self._inner).__aexit__(self._inner, *exc)
+        self._over()
+        return r
+
+    def __getattr__(self, n):
+        return getattr(self._inner, n)
+
+
+def observe_semaphore(obj, names, pred, name, log, limit=None) -> bool:
+    """wrap the semaphore attribute of [obj] (found by name, else by [pred]) into an ObservedSemaphore"""
+    n = C.priv_name(obj, names, pred)
+    if n is None:
+        return False
+    setattr(obj, n, ObservedSemaphore(getattr(obj, n), name, log, limit))
+    return True
+
+
+def is_semaphore_like(v):
+    return all(callable(getattr(v, a, None)) for a in ("acquire", "release")) and hasattr(v, "__aenter__") \
+        and not isinstance(v, asyncio.Lock)
+
 class LockTrace:
     """Observes, from outside, the per-path locks and the download semaphore of a run: which task takes which
     lock in which order, when it starts processing its file (and which paths that file has), when it enters
@@ -132,48 +227,72 @@ Definition eq3 (a b : bool * bool * bool) : bool :=
 
     def __init__(self):
         self.log = []
+        self.idmap, self.keep = {}, []
+        self.table_missing = False
 
     def prepare(self, apt, base=None):
-        import asyncio
-        log = self.log
-        Base = base or asyncio.Semaphore
+        """observe the download semaphore of [apt] (events ("D", "acq"/"rel", task) in self.log, or in the log of
+        [base] when the caller keeps one log for several semaphores)"""
+        log = (self.log, base) if base is not None else self.log
+        observe_semaphore(apt, ["_download_semaphore"], lambda n, v: is_semaphore_like(v) and "download" in n,
+                          "D", log, apt_config(apt).nthreads)
 
-        class TracingSemaphore(Base):
+    # every asyncio.Lock the tool creates while a LockTrace is active is a logging subclass (the class is
+    # substituted in the asyncio namespace once per process; with no active trace it behaves like the original).
+    # Which lock guards which path is read off the downloader's lock table, replaced by a dict that records every
+    # insertion without changing it: no assumption on HOW the code fills the table (setdefault, get-or-create ...)
+    # or on the table's name.
+    active = None
+    _installed = False
+
+    @classmethod
+    def _install(cls):
+        if cls._installed:
+            return
+        import asyncio
+        Orig = asyncio.Lock
+
+        class TracingLock(Orig):
             async def acquire(self):
                 r = await super().acquire()
-                log.append(("D", "acq", id(asyncio.current_task())))
+                lt = LockTrace.active
+                if lt is not None:
+                    lt.log.append(("L", "acq", id(asyncio.current_task()), id(self)))
                 return r
 
             def release(self):
-                log.append(("D", "rel", id(asyncio.current_task())))
+                lt = LockTrace.active
+                if lt is not None:
+                    lt.log.append(("L", "rel", id(asyncio.current_task()), id(self)))
                 super().release()
-        apt._download_semaphore = TracingSemaphore(apt._config.nthreads)
+        TracingLock.__name__ = "Lock"
+        asyncio.Lock = TracingLock
+        cls._installed = True
 
     def on_downloader(self, d, tag):
         import asyncio
+        self._install()
+        LockTrace.active = self
         log = self.log
+        idmap, keep = self.idmap, self.keep
 
-        class TracingLock(asyncio.Lock):
-            def __init__(self, path):
-                super().__init__()
-                self.path = path
+        class ObservedTable(dict):
+            def _note(self, key, value):
+                if isinstance(value, asyncio.Lock) and id(value) not in idmap:
+                    idmap[id(value)] = (tag, key)
+                    keep.append(value)
 
-            async def acquire(self):
-                r = await super().acquire()
-                log.append(("L", "acq", id(asyncio.current_task()), tag, self.path))
-                return r
+            def __setitem__(self, key, value):
+                self._note(key, value)
+                super().__setitem__(key, value)
 
-            def release(self):
-                log.append(("L", "rel", id(asyncio.current_task()), tag, self.path))
-                super().release()
-
-        class TracingLocks(dict):
             def setdefault(self, key, default=None):
                 if key not in self:
-                    self[key] = TracingLock(key)
-                return self[key]
-        if hasattr(d, "_path_locks"):
-            d._path_locks = TracingLocks()
+                    self._note(key, default)
+                return super().setdefault(key, default)
+        if not set_priv(d, ["_path_locks"], ObservedTable(),
+                        lambda n, v: isinstance(v, dict) and "lock" in n and all(isinstance(x, asyncio.Lock) for x in v.values())):
+            self.table_missing = True
         orig = d.download_file
 
         async def download_file(source_file):
@@ -182,8 +301,22 @@ Definition eq3 (a b : bool * bool * bool) : bool :=
             return await orig(source_file)
         d.download_file = download_file
 
+    def _resolve(self):
+        """lock ids -> (downloader, path); locks that guard no path of a lock table are not the tool's path locks"""
+        LockTrace.active = None
+        out = []
+        for ev in self.log:
+            if ev[0] == "L" and len(ev) == 4:
+                tp = self.idmap.get(ev[3])
+                if tp is not None:
+                    out.append(("L", ev[1], ev[2], tp[0], tp[1]))
+            else:
+                out.append(ev)
+        self.log = out
+
     def row(self, nthreads):
         """-> (coq term, meta) or (None, reason)"""
+        self._resolve()
         keys = {(ev[3], ev[4]) for ev in self.log if ev[0] == "L"} | \
                {(ev[2], p) for ev in self.log if ev[0] == "F" for p in ev[3]}
         # a global order in which every task takes its locks, if there is one: topological order of "taken
@@ -450,6 +583,146 @@ def pool_tie_row(o, files, faults, final_listing):
     return term, ctuple(cbool(ok), "true", "true")
 
 
+
+# ------------------------------------------------------------------ the "parsed" tie (Unpack.v, PoolQueue.v, Deb822.v)
+PARSED_SUFFIXES = (".xz", ".gz", ".bz2")
+
+
+def _decompress(path: Path):
+    import bz2
+    import gzip
+    import lzma
+    op = {".xz": lzma.open, ".gz": gzip.open, ".bz2": bz2.open}.get(path.suffix)
+    try:
+        if op is None:
+            return path.read_bytes()
+        with op(path, "rb") as fp:
+            return fp.read()
+    except Exception:
+        return None
+
+
+def parsed_observe_before(m, o):
+    """what the index parsers are about to read: skel as it is when the pool stage starts, the selected indices,
+    the decompressed content of every stored candidate"""
+    repo, cfg, d = m.get_repository(), mirror_config(m), mirror_downloader(m)
+    root = cfg.skel_path / repo.get_mirror_path(cfg.encode_tilde)
+    o["skel_root"] = str(root)
+    o["skel_at_pool"] = pool_listing(root, skip_dists=False)
+    o["needed_at_pool"] = sorted(str(p) for p in d.get_downloaded_files_paths())
+    missing = d.get_missing_sources()
+    src = sorted(str(p) for p in set(repo.sources_files) - missing) if repo.is_source_enabled else []
+    pkg = sorted(str(p) for p in set(repo.packages_files) - missing) if repo.is_binaries_enabled else []
+    o["parsed_bases"] = {"src": src, "pkg": pkg}
+    pf = repo.package_filter
+    o["parsed_flt"] = {"inc_src": sorted(pf.include_source_name), "exc_src": sorted(pf.exclude_source_name),
+                       "inc_bin": sorted(pf.include_binary_packages), "exc_bin": sorted(pf.exclude_binary_packages)}
+    o["parsed_ign"] = sorted(repo.ignore_errors)
+    content = {}
+    for b in src + pkg:
+        for sfx in PARSED_SUFFIXES + ("",):
+            q = b + sfx
+            if q in o["skel_at_pool"]:
+                data = _decompress(root / q)
+                content[q] = None if data is None else data.decode("latin-1")
+    o["parsed_content"] = content
+
+
+def parsed_observe_after(m, o):
+    root = Path(o["skel_root"])
+    un = {}
+    for b in o["parsed_bases"]["src"] + o["parsed_bases"]["pkg"]:
+        f = root / b
+        if f.is_file():
+            un[b] = f.read_bytes().decode("latin-1")
+    o["unpacked_after"] = un
+
+
+PARSED_HEADER = ("From AM.Model Require Import Base Path Download Stage Pipeline Converge RepoRun Deb822 PoolQueue Unpack.")
+PARSED_DEFS = """
+Definition mkf a b c d := {| inc_src := a; exc_src := b; inc_bin := c; exc_bin := d |}.
+Fixpoint assoc {A} (l : list (string * A)) (k : string) : option A :=
+  match l with [] => None | (q, v) :: r => if String.eqb k q then Some v else assoc r k end.
+Definition untagged (r : presult) : option (list qentry) :=
+  match r with POk l => Some (map (fun e => {| qe := e; qtag := "" |}) l) | PCrash => None end.
+Definition sub_sizes (a b : list (string * N)) : bool :=
+  forallb (fun e => existsb (fun f => String.eqb (fst e) (fst f) && N.eqb (snd e) (snd f)) b) a.
+Definition sub_obs (a b : list (string * N * bool)) : bool :=
+  forallb (fun e => existsb (fun f => String.eqb (fst (fst e)) (fst (fst f)) && N.eqb (snd (fst e)) (snd (fst f)) &&
+                                      Bool.eqb (snd e) (snd f)) b) a.
+(* (skel was cleaned down to the needed paths before parsing,
+    every index was read from the stored file the model names,
+    the queue is the model's queue) *)
+Definition m_parsed (c : lfs * list string * list (string * N) * list string * list string *
+                         list (string * string) * list (string * list string) *
+                         (list string * list string * list string * list string) * list string * string *
+                         list (string * N * bool)) : bool * bool * bool :=
+  match c with (meta_post, needed, at_pool, sb, pb, contents, compat, (a, b, c1, d), ign, root, real_queue) =>
+    let cleaned := flat_clean needed meta_post in
+    let listing := map (fun e => (fst e, fsize (snd e))) cleaned in
+    let fs := map (fun e => (fst e, {| fsize := snd e; fmt := Local |})) at_pool in
+    let okb := fun base => match unpack_source fs base, assoc compat base with
+                           | Some p, Some l => string_mem p l
+                           | None, Some l => match l with [] => true | _ => false end
+                           | _, None => true
+                           end in
+    let rd := fun (src : bool) => (fun (base : string) (s : option (string * option finfo)) =>
+                match s with
+                | Some (p, _) => match assoc contents p with
+                                 | Some text => untagged (if src then parse_sources (mkf a b c1 d) ign (parse root) text
+                                                          else parse_packages false (mkf a b c1 d) ign (parse root) text)
+                                 | None => None
+                                 end
+                | None => None
+                end) in
+    (sub_sizes listing at_pool && sub_sizes at_pool listing,
+     forallb okb (sb ++ pb),
+     match read_all (rd true) (parsed_sources sb fs), read_all (rd false) (parsed_sources pb fs) with
+     | Some srcs, Some pkgs =>
+         let q := queue_obs (pool_queue srcs pkgs) in sub_obs q real_queue && sub_obs real_queue q
+     | _, _ => false
+     end)
+  end.
+Definition eq_parsed (x y : bool * bool * bool) : bool :=
+  match x, y with (x1, y1, z1), (x2, y2, z2) => Bool.eqb x1 x2 && Bool.eqb y1 y2 && Bool.eqb z1 z2 end.
+"""
+
+
+def parsed_tie_row(o):
+    """the unpack + parse + queue step of one repository of one real run as an Unpack/PoolQueue case, or None
+    when it was not observed (then [why])"""
+    from .common import cN, cZ, cstr
+    need = ("skel_at_pool", "needed_at_pool", "parsed_bases", "parsed_content", "unpacked_after", "pool_queue", "meta_post")
+    if "parsed_obs_error" in o or any(k not in o for k in need):
+        return None, o.get("parsed_obs_error") or "missing " + ",".join(k for k in need if k not in o)
+    if any(v is None for v in o["parsed_content"].values()):
+        return None, "a stored index could not be decompressed by the harness"
+    bases = o["parsed_bases"]["src"] + o["parsed_bases"]["pkg"]
+    compat = []
+    for b in bases:
+        un = o["unpacked_after"].get(b)
+        cands = [b + sfx for sfx in PARSED_SUFFIXES + ("",) if (b + sfx) in o["parsed_content"]]
+        compat.append((b, [q for q in cands if un is not None and o["parsed_content"][q] == un]))
+    # the uncompressed <index> itself is a candidate only when nothing compressed is stored; at the start of the pool
+    # stage it holds what skel holds, afterwards what was unpacked: compare with the stored candidates only
+    flt = o["parsed_flt"]
+    meta_post = clist("(%s, {| fsize := %s; fmt := Date %s |})" % (cstr(p), cN(sz), cZ(mt)) for p, (sz, mt) in sorted(o["meta_post"].items()))
+    at_pool = clist(ctuple(cstr(p), cN(sz)) for p, (sz, _) in sorted(o["skel_at_pool"].items()))
+    rq = clist(ctuple(cstr(f["name"]), cN(f["variants"][0]["size"] if f["variants"] else 0), cbool(f["ignore_errors"]))
+               for f in o["pool_queue"])
+    term = ctuple(meta_post, clist(cstr(p) for p in o["needed_at_pool"]), at_pool,
+                  clist(cstr(b) for b in o["parsed_bases"]["src"]), clist(cstr(b) for b in o["parsed_bases"]["pkg"]),
+                  clist(ctuple(cstr(p), cstr(t)) for p, t in sorted(o["parsed_content"].items())),
+                  clist(ctuple(cstr(b), clist(cstr(q) for q in l)) for b, l in compat),
+                  ctuple(*(clist(cstr(x) for x in flt[k]) for k in ("inc_src", "exc_src", "inc_bin", "exc_bin"))),
+                  clist(cstr(x) for x in o["parsed_ign"]), cstr(o["skel_root"]), rq)
+    meta = {"bases": len(bases), "queued": len(o["pool_queue"]),
+            "stale_candidates": sum(1 for b in bases for sfx in PARSED_SUFFIXES if (b + sfx) in o["meta_post"]
+                                    and (b + sfx) not in o["skel_at_pool"]),
+            "twins": len(o["pool_queue"]) - len({f["name"] for f in o["pool_queue"]}),
+            "several_variants_stored": sum(1 for b, l in compat if len([1 for sfx in PARSED_SUFFIXES if (b + sfx) in o["skel_at_pool"]]) > 1)}
+    return (term, ctuple("true", "true", "true")), meta
+
 class Instrument:
     """Wraps RepositoryMirror stage methods (from outside) to observe the flags the
     flow model takes as input."""
@@ -466,18 +739,18 @@ class Instrument:
         inst = self
 
         def key(m):
-            return str(m._repository.url)
+            return str(m.get_repository().url)
 
         async def rel(m):
             r = await inst.orig["download_release_files"](m)
             o = inst.obs.setdefault(key(m), {})
             o["release_valid"] = bool(r)
-            o["rel_err"] = m._downloader.has_errors()
+            o["rel_err"] = mirror_downloader(m).has_errors()
             return r
 
         async def meta(m):
             o = inst.obs.setdefault(key(m), {})
-            root = m._config.skel_path / m._repository.get_mirror_path(m._config.encode_tilde)
+            root = mirror_config(m).skel_path / m.get_repository().get_mirror_path(mirror_config(m).encode_tilde)
             o["meta_pre"] = pool_listing(root, skip_dists=False)
             r = await inst.orig["download_metadata_files"](m)
             try:
@@ -486,22 +759,30 @@ class Instrument:
                 o["meta_queue_error"] = repr(e)
             o["meta_post"] = pool_listing(root, skip_dists=False)
             o["selected"] = bool(r)
-            o["meta_err"] = m._downloader.has_errors() if r else False
-            o["meta_miss"] = m._downloader.has_missing() if r else False
+            o["meta_err"] = mirror_downloader(m).has_errors() if r else False
+            o["meta_miss"] = mirror_downloader(m).has_missing() if r else False
             return r
 
         async def pool(m):
             o = inst.obs.setdefault(key(m), {})
-            root = m._config.mirror_path / m._repository.get_mirror_path(m._config.encode_tilde)
+            root = mirror_config(m).mirror_path / m.get_repository().get_mirror_path(mirror_config(m).encode_tilde)
             o["pool_pre"] = pool_listing(root)
+            try:
+                parsed_observe_before(m, o)
+            except Exception as e:   # the observation must never disturb the run
+                o["parsed_obs_error"] = repr(e)
             r = await inst.orig["download_pool_files"](m)
+            try:
+                parsed_observe_after(m, o)
+            except Exception as e:
+                o["parsed_obs_error"] = repr(e)
             try:
                 o["pool_queue"] = [queue_entry(f) for f in r]
             except Exception as e:   # the observation must never disturb the run
                 o["pool_queue_error"] = repr(e)
             o["pool_post"] = pool_listing(root)
-            o["pool_err"] = m._downloader.has_errors()
-            o["pool_miss"] = m._downloader.has_missing()
+            o["pool_err"] = mirror_downloader(m).has_errors()
+            o["pool_miss"] = mirror_downloader(m).has_missing()
             return r
 
         async def move(m, files):
